@@ -116,6 +116,7 @@ struct Node {
     engine: Arc<SimEngine>,
     itx: mpsc::UnboundedSender<InternalEvent>,
     leader_rx: tokio::sync::watch::Receiver<Option<LeaderInfo>>,
+    notifs: Vec<(u32, u64)>,
     _shutdown: tokio::sync::watch::Sender<()>,
 }
 
@@ -171,7 +172,7 @@ fn mk_node(id: u32, n: u32, cap: u64, engine: Arc<SimEngine>, net: Arc<Mutex<Net
     let mut raft = Raft::<ClusterTC>::new(id, role, storage, SimTransport { me: id, net }, handlers, Arc::new(membership_for(id, n)), sp, cfg);
     let (ltx, lrx) = tokio::sync::watch::channel(None);
     raft.register_leader_change_listener(ltx);
-    Node { id, raft: Some(raft), log, engine, itx, leader_rx: lrx, _shutdown: stx }
+    Node { id, raft: Some(raft), log, engine, itx, leader_rx: lrx, notifs: vec![], _shutdown: stx }
 }
 
 async fn settle(node: &mut Node) {
@@ -180,8 +181,20 @@ async fn settle(node: &mut Node) {
         for _ in 0..4 {
             tokio::task::yield_now().await;
         }
+        loop {
+            let raft = node.raft.as_mut().unwrap();
+            if raft.verif_process_one_internal().await.is_none() {
+                break;
+            }
+            // record every distinct value the leader-change watch takes, also between two internal events
+            let cur = node.leader_rx.borrow().clone();
+            if let Some(l) = cur {
+                if node.notifs.last() != Some(&(l.leader_id, l.term)) {
+                    node.notifs.push((l.leader_id, l.term));
+                }
+            }
+        }
         let raft = node.raft.as_mut().unwrap();
-        let _ = raft.verif_process_internal().await;
         let selfq = raft.verif_take_self_inbound();
         let _ = raft.verif_process_inbound(selfq).await;
     }
@@ -193,7 +206,9 @@ fn observe(node: &Node) -> Value {
     let last = node.log.last_entry_id();
     let ents: Vec<Value> = if last > 0 { node.log.get_entries_range(0..=last).unwrap().iter().map(entry_json).collect() } else { vec![] };
     let li = node.leader_rx.borrow().clone();
-    json!([role, term, commit, match vf { Some((i, t, _)) => json!([i, t]), None => json!([]) }, ents, match li { Some(l) => json!([l.leader_id, l.term]), None => json!([]) }])
+    let _ = li;
+    let ns: Vec<Value> = node.notifs.iter().map(|(l, t)| json!([l, t])).collect();
+    json!([role, term, commit, match vf { Some((i, t, c)) => json!([i, t, if c { 1 } else { 0 }]), None => json!([]) }, ents, ns])
 }
 
 fn vresp_json(r: &VoteResponse) -> Value {
@@ -253,7 +268,7 @@ pub fn run(rt: &tokio::runtime::Runtime, case: Value) -> Value {
                         tokio::time::sleep(std::time::Duration::from_millis(12)).await;
                         let _ = nodes[ai].raft.as_mut().unwrap().verif_tick().await;
                         settle(&mut nodes[ai]).await;
-                        result = json!(seen);
+                        result = json!([req.term, seen]);
                     }
                 }
                 1 | 2 => {
@@ -341,7 +356,9 @@ pub fn run(rt: &tokio::runtime::Runtime, case: Value) -> Value {
                         g.pending_req.retain(|(f, _), _| *f != a);
                         g.pending_resp.retain(|(f, _), _| *f != a);
                     }
+                    let old_notifs = std::mem::take(&mut nodes[ai].notifs);
                     nodes[ai] = mk_node(a, n, cap, engine, net.clone());
+                    nodes[ai].notifs = old_notifs;
                 }
                 8 => {
                     let ai = (a - 1) as usize;
